@@ -6,6 +6,7 @@ import Proofs.KNSorters
 import Proofs.KNC07Chain
 import Proofs.KNC07Fanin
 import Proofs.KNC07ReadTwice
+import Proofs.KNCollapseMarks
 /-!
 # C07 — Estimation result is independent of memory budget, block sizes and scheduling
 
@@ -703,5 +704,51 @@ not depend on the block boundaries -/
 theorem prune_partition_indep {β : Type} (f : KV.KN.Emit → β) (bs₁ bs₂ : List (List KV.KN.Emit))
     (h : bs₁.flatten = bs₂.flatten) : pruneStream true f bs₁ = pruneStream true f bs₂ := by
   rw [pruneStream_fixed, pruneStream_fixed, h]
+
+
+/-! ## `CollapseStream`'s pruning marks (round 5; seed C07-9) -/
+
+open KV.KN.Blocks in
+/-- **collapse_marks_everywhere** — the sentence `Model/KNBlocks.lean` assumed: with the marking code of the real iterator
+(`StartBlock` marks the first slot, `operator++` marks the slot that just received `*copy_from_` and then the new current
+slot), the stream that flows downstream is exactly `map mk` of the mark-free model's stream — every record that leaves step 2
+carries the mark a function of the record alone, for every cut of the stream into chain blocks. -/
+theorem collapse_marks_everywhere {α : Type} (p : α → Bool) (mk : α → α) (hp : ∀ a, p (mk a) = p a) (bs : List (List α)) :
+    collapseStreamM p mk true bs = ((collapseStream p bs).2).map mk := by
+  unfold collapseStreamM collapseStream
+  induction bs with
+  | nil => rfl
+  | cons b bs ih =>
+    simp only [List.flatMap_cons, List.map_append] at ih ⊢
+    rw [ih, collapseBlockM_eq_map p mk hp]
+
+open KV.KN.Blocks in
+/-- **collapse_marked_partition_indep** — hence the marked stream does not depend on the chain block boundaries either -/
+theorem collapse_marked_partition_indep {α : Type} [Inhabited α] (p : α → Bool) (mk : α → α) (hp : ∀ a, p (mk a) = p a)
+    (bs₁ bs₂ : List (List α)) (h : bs₁.flatten = bs₂.flatten) :
+    (collapseStreamM p mk true bs₁).Perm (collapseStreamM p mk true bs₂) := by
+  rw [collapse_marks_everywhere p mk hp, collapse_marks_everywhere p mk hp]
+  exact (collapse_partition_indep p bs₁ bs₂ h).map mk
+
+/-- records `(hasBos, count, marked)`; mark when `count ≤ 1` -/
+def exMk (e : Bool × Nat × Bool) : Bool × Nat × Bool := (e.1, e.2.1, e.2.2 || decide (e.2.1 ≤ 1))
+
+open KV.KN.Blocks in
+/-- negation witness (`decide`) for the variant of `operator++` without the marking block after the `memcpy` (seed C07-9):
+the same stream cut at two places gives different marks (`remark = false`), while the real code (`remark = true`) gives
+the same marked stream; `exMk` satisfies the hypothesis of `collapse_marks_everywhere` (the `<s>` flag is untouched). -/
+theorem collapse_without_remark_depends_on_blocks :
+    -- same stream, two block partitions
+    ([[(true, 5, false), (false, 1, false)], [(false, 7, false)]] : List (List (Bool × Nat × Bool))).flatten
+      = [[(true, 5, false)], [(false, 1, false), (false, 7, false)]].flatten
+    ∧ collapseStreamM (·.1) exMk true [[(true, 5, false), (false, 1, false)], [(false, 7, false)]]
+      = [(false, 1, true), (false, 7, false)]
+    ∧ collapseStreamM (·.1) exMk true [[(true, 5, false)], [(false, 1, false), (false, 7, false)]]
+      = [(false, 1, true), (false, 7, false)]
+    ∧ collapseStreamM (·.1) exMk false [[(true, 5, false), (false, 1, false)], [(false, 7, false)]]
+      = [(false, 1, false), (false, 7, false)]
+    ∧ collapseStreamM (·.1) exMk false [[(true, 5, false)], [(false, 1, false), (false, 7, false)]]
+      = [(false, 1, true), (false, 7, false)] := by decide
+
 
 end KV.C07
